@@ -86,10 +86,17 @@ def rule_rank_shortcut(ctx: Ctx) -> None:
     for a in fn.body:
         if isinstance(a, ast.Assign) and len(a.targets) == 1 and isinstance(a.targets[0], ast.Name):
             env.setdefault(a.targets[0].id, a.value)
-    # the shortcut: the first top-level `if <name> <cmp> <threshold>: return False, ...` in front of the search for dependent columns;
-    # the rank is whatever single name the test compares (no name anchor)
-    early = None
+    # the shortcut: the first top-level `if <rank> <cmp> <threshold>: return False, ...` in front of the search for dependent columns.
+    # Which side is the threshold is decided by its form (4 * n or the width of a matrix, possibly with an offset), not by names.
     NN = next((k for k, v in env.items() if isinstance(v, (ast.Subscript, ast.Call)) and ("shape" in norm(v) or "len(" in norm(v))), "n_nodes")
+
+    def threshold_form(e):
+        """(atoms, const) when `e` resolves to 4 * n or a matrix width (+ const), else None"""
+        T_ = linear.clean(linear.lin(e, {k: v for k, v in env.items() if k != NN}) or {"?": 1})
+        c_ = T_.pop("", 0)
+        ok_ = T_ == {NN: 4} or (len(T_) == 1 and list(T_.values()) == [1] and (".shape[1]" in list(T_)[0] or (list(T_)[0].startswith("np.shape(") and list(T_)[0].endswith("[1]"))))
+        return (T_, c_) if ok_ else None
+    early = None
     for st in fn.body:
         if any((call_attr(c) or getattr(c.func, "id", "")) == "_col_finder" for c in calls_in(st)):
             break
@@ -98,24 +105,19 @@ def rule_rank_shortcut(ctx: Ctx) -> None:
                         and r.value.elts[0].value is False for r in st.body) \
                 and isinstance(st.test.ops[0], (ast.Lt, ast.LtE, ast.Gt, ast.GtE, ast.Eq)):
             sides = [st.test.left, st.test.comparators[0]]
-            if any(isinstance(x, ast.Name) for x in sides) and any(not isinstance(x, ast.Name) or x.id == NN for x in sides):
+            if any(threshold_form(x) is not None for x in sides):
                 early = st
                 break
     if early is None:
         raise AnalysisError("is_lc_equivalent: the rank shortcut was not found")
     l_, op, r_ = early.test.left, early.test.ops[0], early.test.comparators[0]
-    if not isinstance(l_, ast.Name) or (isinstance(r_, ast.Name) and l_.id == NN):
+    if threshold_form(r_) is None:
         l_, r_ = r_, l_
         op = {ast.Lt: ast.Gt, ast.LtE: ast.GtE, ast.Gt: ast.Lt, ast.GtE: ast.LtE}.get(type(op), type(op))()
-    if not isinstance(l_, ast.Name):
-        raise AnalysisError(f"is_lc_equivalent: shortcut test `{short(early.test)}` is not a comparison of rank")
-    RK = l_.id
-    env_t = {k: v for k, v in env.items() if k != RK and k != NN}
-    T = linear.clean(linear.lin(r_, env_t) or {"?": 1})
-    const = T.pop("", 0)
-    base_ok = T == {NN: 4} or (len(T) == 1 and list(T.values()) == [1] and (".shape[1]" in list(T)[0] or list(T)[0].startswith("np.shape(") and list(T)[0].endswith("[1]")))
-    if not base_ok:
-        raise AnalysisError(f"is_lc_equivalent: shortcut threshold `{short(r_)}` is neither 4 * n_nodes nor the width of the coefficient matrix")
+    if not isinstance(l_, ast.Name) or threshold_form(l_) is not None:
+        raise AnalysisError(f"is_lc_equivalent: shortcut test `{short(early.test)}` is not a comparison of the rank with a threshold")
+    T, const = threshold_form(r_)
+    T = dict(T)
     good = (isinstance(op, ast.GtE) and const == 0) or (isinstance(op, ast.Gt) and const == -1) or (isinstance(op, ast.Eq) and const == 0)
     if good:
         ctx.ok("lc.rank-shortcut", m, early.test, what="no search iff rank >= number of unknowns")
